@@ -49,6 +49,7 @@ package compiler
 //@   property C05 C13
 //@   mode panics
 //@   requires c != nil && c.locations != nil && obj(c.bytecode) != obj(c) && obj(c.nodes) != obj(c) && obj(c.nodes) != obj(c.bytecode)
+//@   requires[operand-fresh] obj(b) != obj(c.bytecode) && obj(b) != obj(c) && obj(b) != obj(c.nodes)
 //@   ensures[offset] current == old(len(c.bytecode)) + 1
 //@   ensures[len] len(c.bytecode) == old(len(c.bytecode)) + 1 + len(b)
 //@   ensures[opcode] c.bytecode[old(len(c.bytecode))] == op
